@@ -29,6 +29,7 @@ type Step struct {
 	Mode    string `json:"mode,omitempty"`
 	Trivial bool   `json:"trivial,omitempty"`
 	GoSpec  string `json:"gospec,omitempty"` // for oracle-go: verdict computed in Go
+	GoClass string `json:"goclass,omitempty"` // for oracle-go: known-finding class decided by the harness (byte-level predicates)
 	NoImpl  bool   `json:"noimpl,omitempty"` // no Impl model for this step: only the oracle is checked
 }
 
@@ -184,6 +185,9 @@ func classify(st Step, resp string) (kind, class, impl, spec string) {
 	case "oracle-go":
 		spec = st.GoSpec
 		specOK = st.GoSpec == "pass"
+		if st.GoClass != "" {
+			class = st.GoClass
+		}
 	default:
 		specOK = st.Go == spec
 	}
